@@ -1,6 +1,7 @@
 """hybridchecks.py — common body of the C06 / C07 / C08 checks (hybrid time-step loads)."""
 import json, re
 from fractions import Fraction as F
+import sys
 from lib import *
 
 CUM = [0, 744, 1416, 2160, 2880, 3624, 4344, 5088, 5832, 6552, 7296, 8016, 8760]
@@ -442,7 +443,12 @@ def csv_time_axis(chk):
     import csv
     from configs import cfg
     horizons = [13, 30] if chk.tier == "quick" else [13, 30, 25, 7, 49]
-    for r in e2e_runs([cfg(months=m, loads={"kind": "balanced", "scale": 20000.0, "seed": 3}) for m in horizons]):
+    tcfgs = [cfg(months=m, loads={"kind": "balanced", "scale": 20000.0, "seed": 3}) for m in horizons]
+    ru = cfg(months=31, loads={"kind": "balanced", "scale": 20000.0, "seed": 3})            # a manager that was set up for 24 months first
+    ru["_changed_after_design"] = {"section": "simulation", "values": {"num_months": 24}, "design_found_first": True}
+    idle = cfg(months=24, loads={"kind": "balanced", "scale": 20000.0, "seed": 3, "first_loaded_month": 4})      # building taken into use on 1 April
+    tcfgs += [ru, idle]
+    for r in e2e_runs(tcfgs):
         if not r.get("ok"):
             chk.broken.append({"name": "end-to-end run failed", "detail": json.dumps({k: r.get(k) for k in ("exc", "msg")})})
             continue
@@ -457,6 +463,52 @@ def csv_time_axis(chk):
         missing = [m for m in range(1, months + 1) if float(closed_lmh(m)) not in times]
         if missing and len(chk.violations) < 4:
             chk.violation("time-csv", r["cfg"], {"month_ends_without_a_row": missing[:6]}, "a breakpoint (row) at the end of every calendar month")
+
+
+def design_level_loads(chk):
+    """C07 on whole designs: the hybrid loads the returned design carries (monthly totals, peaks, peak durations) are those of a hybrid
+    load built from scratch for the REQUESTED hourly loads and the returned field — also with a system flow (the flow per borehole, and
+    with it the short-time response, changes from candidate to candidate) and on a manager whose loads were replaced after set_design"""
+    from configs import cfg
+    c1 = cfg("RECTANGLE", months=12, loads={"kind": "balanced", "scale": 30000.0, "seed": 7}, flow=("SYSTEM", 2.2))
+    c2 = cfg(months=12, loads={"kind": "mixed_days", "scale": 26000.0, "seed": 8})
+    c2["_changed_after_design"] = {"section": "loads", "values": {"synthetic": {"kind": "cooling", "scale": 12000.0, "seed": 1}}, "design_found_first": True}
+    c3 = cfg("BIZONEDRECTANGLE", months=12, loads={"kind": "spiky", "scale": 24000.0, "seed": 9}, flow=("SYSTEM", 2.6))
+    for r in e2e_runs([c1, c2] + ([] if chk.tier == "quick" else [c3])):
+        if not r.get("ok") or "reference" not in r:
+            chk.broken.append({"name": "end-to-end run / reference failed", "detail": json.dumps({k: r.get(k) for k in ("exc", "msg", "reference_error")})})
+            continue
+        chk.cov["evaluations"] += 1
+        ref = r["reference"]
+        for key, what in (("monthly", "monthly totals and peaks"), ("durations", "peak durations")):
+            for k2 in r[key]:
+                a, b = r[key][k2], ref[key][k2]
+                bad = [i for i in range(min(len(a), len(b))) if not (abs(a[i] - b[i]) <= 1e-9 * max(1.0, abs(b[i])))]
+                if bad and len(chk.violations) < 4:
+                    chk.violation("design-loads", r["cfg"], {"array": k2, "month": bad[0], "on_the_returned_design": a[bad[0]], "from_the_requested_loads_and_returned_field": b[bad[0]]},
+                                  f"the hybrid loads of the returned design ({what}) are those of the requested hourly loads for the returned field")
+                    break
+        # the monthly table of the written summary against the requested hourly loads
+        import os as _os
+        try:
+            with open(_os.path.join(r["outdir"], "SimulationSummary.json")) as fh:
+                tab = json.load(fh)["ghe_system"]["glhe_monthly_loads"]["data"]
+            loads = None
+            sys.path.insert(0, _os.path.join(VERIF, "tools", "impl"))
+            from e2e import materialise
+            loads = materialise(r["cfg"])["loads"]["ground_loads"]
+            cum = [0, 744, 1416, 2160, 2880, 3624, 4344, 5088, 5832, 6552, 7296, 8016, 8760]
+            for m in range(12):
+                seg = loads[cum[m]:cum[m + 1]]
+                want_ph = max([x for x in seg if x >= 0] + [0.0]) / 1000.0
+                want_pc = max([-x for x in seg if x < 0] + [0.0]) / 1000.0
+                if abs(tab[m][3] - want_ph) > 1e-9 * max(1.0, want_ph) or abs(tab[m][5] - want_pc) > 1e-9 * max(1.0, want_pc):
+                    if len(chk.violations) < 4:
+                        chk.violation("design-loads", r["cfg"], {"month": m + 1, "summary_row": tab[m], "hourly_peak_heating_kW": want_ph, "hourly_peak_cooling_kW": want_pc},
+                                      "the monthly peaks in the written summary are the hourly peaks of the requested loads")
+                    break
+        except (OSError, KeyError, IndexError) as ex_:
+            chk.notes.append({"summary_not_read": str(ex_)})
 
 
 def run_hybrid_check(chk, which, props_file, extra_models):
@@ -507,6 +559,8 @@ def run_hybrid_check(chk, which, props_file, extra_models):
         two_day_checks(chk, profs, res["profiles"])
     if which == "C08":
         csv_time_axis(chk)
+    if which == "C07":
+        design_level_loads(chk)
     # listed findings are re-run on their exact input
     for kf in chk.open_findings("hybrid-profile"):
         r = run_impl("hybrid.py", {"profiles": [kf["input"]]})
